@@ -551,6 +551,63 @@ func botCase(r *rand.Rand, snap *pokertable.Table) string {
 	return sb.String()
 }
 
+// botRepeatCase: one bot is shown a hand state in which it is asked, then the very same state again (a table event that
+// does not change the hand re-publishes it), then an older state of the same hand: it acts once, on the first
+func botRepeatCase(r *rand.Rand, snap *pokertable.Table, caseNo int) string {
+	t := safeClone(snap)
+	if t == nil || t.State.GameState == nil || t.State.Status != pokertable.TableStateStatus_TableGamePlaying {
+		return ""
+	}
+	gs := t.State.GameState
+	asked := []int{}
+	for k, p := range gs.Players {
+		if len(p.AllowedActions) > 0 && k < len(t.State.GamePlayerIndexes) {
+			asked = append(asked, k)
+		}
+	}
+	if len(asked) == 0 {
+		return ""
+	}
+	gi := asked[r.Intn(len(asked))]
+	playerID := t.State.PlayerStates[t.State.GamePlayerIndexes[gi]].PlayerID
+	a := actor.NewActor()
+	ad := &recAdapter{}
+	a.SetAdapter(ad)
+	a.SetRunner(actor.NewBotRunner(playerID))
+	var sb strings.Builder
+	fmt.Fprintf(&sb, "ac new h=%d kind=botrepeat\n", 910000+caseNo)
+	show := func(tt *pokertable.Table) {
+		mv := "none"
+		func() {
+			defer func() {
+				if e := recover(); e != nil {
+					mv = "panic:0"
+				}
+			}()
+			ad.UpdateTableState(tt)
+		}()
+		if calls := ad.take(); len(calls) > 0 {
+			mv = fmt.Sprintf("%s:%d", calls[0].kind, calls[0].arg)
+			if len(calls) > 1 {
+				mv += fmt.Sprintf("+%d-more", len(calls)-1)
+			}
+		}
+		fmt.Fprintf(&sb, "ac bot id=%d seated=1 in=1 st=playing gi=%d %s | move=%s res=ok\n", idNum(playerID), gi, viewStr(tt.State.GameState), mv)
+	}
+	first := safeClone(t)
+	first.State.GameState.UpdatedAt -= 2000
+	show(first)        // an earlier state of the same hand (the bot may act on it)
+	show(safeClone(t)) // acts
+	again := safeClone(t)
+	again.UpdateSerial++ // e.g. a deadline extension or a reservation re-published the table; the hand state is the same
+	show(again)
+	older := safeClone(t)
+	older.State.GameState.UpdatedAt -= 1000
+	show(older)
+	sb.WriteString("ac end\n")
+	return sb.String()
+}
+
 func pickPlayer(r *rand.Rand, s *pokertable.Table) string {
 	gi := s.State.GamePlayerIndexes
 	if len(gi) == 0 {
@@ -655,6 +712,14 @@ func runActor(args []string) {
 			}
 		}
 		w.WriteString("ac end\n")
+		for k, tries := 0, 0; k < *bcases/3 && tries < *bcases*20; tries++ {
+			l := botRepeatCase(r, snaps[r.Intn(len(snaps))], k)
+			if l != "" {
+				w.WriteString(l)
+				k++
+				st.BotCases++
+			}
+		}
 		w.WriteString("ac new h=900001 kind=player\n")
 		// player runner, immediate outcomes: every status, action time 0 (acts at once) and 1 (arms the time bank)
 		for k := 0; k < *pcases; k++ {
